@@ -312,8 +312,15 @@ def r3b_clckgen_running(L, repo):
         atoms.append(A_T)
     atoms, rows = W2.table(stop.body, atoms)
     need = ["self._breaker.set()", "self._thread.join()", "self._thread = None", "self._breaker.clear()"]
+    # `t.is_alive()` tested after an unconditional `t.join()` without a timeout is False: such rows cannot occur
+    joins_plain = any(isinstance(c, ast.Call) and isinstance(c.func, ast.Attribute) and c.func.attr == "join" and not c.args and not c.keywords
+                      for c in ast.walk(stop))
+    joins_timed = any(isinstance(c, ast.Call) and isinstance(c.func, ast.Attribute) and c.func.attr == "join" and (c.args or c.keywords)
+                      for c in ast.walk(stop))
     for vals, evs_ in sorted(rows.items()):
         a = dict(zip(atoms, vals))
+        if joins_plain and not joins_timed and any(k.endswith(".is_alive()") and v for k, v in a.items()):
+            continue
         got = [e for e in evs_ if e in need or "join" in str(e) or "_breaker" in str(e)]
         want = [] if a[A_T] else need
         extra = "".join(" %s=%d" % (u[:40], a[u]) for u in unknown)
@@ -422,8 +429,25 @@ def r4_power_cmds(L, repo, force_shape=False):
                       want, evs)
     else:
         L.require("C12.R4", FT, fn, "POWERON branch found", 1, len(br))
-    # ready: decision table over (rx None, tx None, fh None)
+    # ready: folded over the complete abstraction {unset, set} of (Rx frequency, Tx frequency, hopping parameters)
     ci2, rd = repo.need_method("transceiver", "Transceiver", "ready")
+    if not force_shape:
+        from consteval import Ev, Unknown, Raised, Opaque
+        import itertools
+        ok_fold = True
+        for rx, tx, fh in itertools.product((None, 935800000), (None, 890800000), (None, Opaque("HoppingParams"))):
+            e_ = Ev(repo, ci2.mod, env={"self._rx_freq": rx, "self._tx_freq": tx, "self.fh": fh}, self_cls=ci2)
+            try:
+                r_ = e_.run_block(rd.body)
+            except (Unknown, Raised):
+                ok_fold = False
+                break
+            got_ = r_[1] if isinstance(r_, tuple) else None
+            want_ = (rx is not None and tx is not None) or fh is not None
+            L.require("C12.R4", F, "Transceiver.ready", "ready with rx_unset=%d tx_unset=%d fh_unset=%d" % (rx is None, tx is None, fh is None),
+                      want_, bool(got_) if got_ is not None else None, line=rd.lineno)
+        if ok_fold:
+            return
     W = Walker(lambda st: ("ret", canon(st.value)) if isinstance(st, ast.Return) else None)
     want_atoms = ["None is self._rx_freq", "None is self._tx_freq", "None is self.fh"]
     atoms = W.atoms(rd.body)
@@ -521,7 +545,7 @@ def r5_ports(L, repo, force_shape=False):
     ci3, snd = repo.need_method("udp_link", "UDPLink", "send")
     dst = [canon(c.args[1]) for c in calls_in(snd) if canon(c.func).endswith("sock.sendto") and len(c.args) > 1]
     L.require("C12.R5", FU, "UDPLink.send", "send() goes to the stored remote endpoint",
-              ["(self.remote_addr, self.remote_port)"], dst)
+              ["(self.remote_addr, self.remote_port)"], sorted(set(dst)))
     # interface wrappers pass their arguments through unchanged
     for modn, cls, skip in (("data_if", "DATAInterface", 0), ("ctrl_if", "CTRLInterface", 0), ("ctrl_if_trx", "CTRLInterfaceTRX", 1)):
         c4, m4 = repo.need_method(modn, cls, "__init__")
